@@ -64,6 +64,8 @@ EventsOf(a) ==
       [] a = "Alias" -> {[a |-> a, p |-> p, how |-> w] : p \in Pfxs, w \in {"iter", "split", "split_union"}}
       [] a = "Find" -> {[a |-> a, p |-> p, q |-> q, kind |-> k] :
                            p \in Pfxs, q \in Pfxs, k \in {"find", "find_exact", "find_lpm"}}
+      \* view_at on a view (C11/C12: "view_at on a view equals find"): the "find" kind only
+      [] a = "FindAt" -> {[a |-> "Find", p |-> p, q |-> q, kind |-> "find"] : p \in Pfxs, q \in Pfxs}
       [] a = "ViewSet" -> {[a |-> a, p |-> p, v |-> v] : p \in Pfxs, v \in Vals}
       [] a = "ViewRemove" -> {[a |-> a, p |-> p] : p \in Pfxs}
       [] a = "ViewValueMut" -> {[a |-> a, p |-> p, how |-> w] : p \in Pfxs, w \in {"value_mut", "prefix_value_mut"}}
@@ -113,7 +115,10 @@ InvCanon     == canon => CanonShape(m) /\ Compact(m)         \* C15
 RECURSIVE Shape(_, _)
 Shape(mm, i) == IF i = 0 THEN <<>> ELSE <<mm.a[i].p.n, Shape(mm, mm.a[i].l), Shape(mm, mm.a[i].r)>>
 
-StepRetOK  == RetAgrees(ev', [ret |-> ret', pan |-> pan'], [ret |-> aret', pan |-> apan'], abs, canon, drift)        \* C01 ...
+StepRetOK  == /\ RetAgrees(ev', [ret |-> ret', pan |-> pan'], [ret |-> aret', pan |-> apan'], abs, canon, drift)     \* C01 ...
+              \* the machine's own call order is one instance of the order-free outcome of a panicking retain (C20)
+              /\ ev'.a = "Retain" /\ pan' => /\ RetainObservedOK(m, ev', ret')
+                                             /\ Entries(RetainObserved(m, ev', ret').m) = Entries(m')
 StepGrowOK == ~IsClear(ev') =>                                                     \* C16
                 Len(m'.a) = MaxI(Len(m.a), Cardinality(Reach(m')))
 StepShapeOK == ShapeKeeps(ev') => Shape(m', 1) = Shape(m, 1)                  \* C15
@@ -138,6 +143,7 @@ EmitState == EmitActs # {} => PrintT(ToJson(StateRow))
 Row == IF ev'.a \in Observers
        THEN [h |-> hist, e |-> ev', r |-> ret', pn |-> pan']
        ELSE [h |-> hist, e |-> ev', r |-> ret', pn |-> pan',
-             t |-> Tree(m'), x |-> <<Len(m'.a), Len(m'.f), m'.c>>, dr |-> drift', cn |-> canon']
+             t |-> Tree(m'), x |-> <<Len(m'.a), Len(m'.f), m'.c>>, dr |-> drift', cn |-> canon',
+             keeps |-> ShapeKeeps(ev')]
 Emit == ev'.a \in EmitActs => PrintT(ToJson(Row))
 =============================================================================
